@@ -66,9 +66,14 @@ TAIL='''
 //@   invariant forall i int :: 0 <= i && i < #i && lastOfName(zipReader.File, i, #i) ==> has(doc.parts, zipReader.File[i].FileHeader.Name) && partIs(doc.parts[zipReader.File[i].FileHeader.Name], zipReader.File[i])
 //@   invariant forall k string :: has(doc.parts, k) ==> exists i int :: 0 <= i && i < #i && zipReader.File[i].FileHeader.Name == k
 
-// Open (file path) is the same code after zip.OpenReader; it hands openFromZipReader the address of the
-// Reader embedded in the ReadCloser, an interior pointer the engine does not model, so only
-// OpenFromMemory is under contract.
+// Open (file path) is the same code after zip.OpenReader; it hands openFromZipReader the address of the Reader
+// embedded in the ReadCloser (modelled as a reference of its own: the caller never touches the embedded struct).
+//@ func Open
+//@ props C06, C10
+//@ ensures err == nil ==> docParts(result0) && elemsOK(result0.Body.Elements)
+//@ ensures err == nil ==> mediaFresh(result0)
+//@ ensures err != nil ==> result0 == nil
+
 //@ func OpenFromMemory
 //@ props C06, C10
 //@ requires readCloser != nil
